@@ -108,6 +108,7 @@ func coreAlphabet() []op {
 		{kind: kFinalize, reader: rdZero},
 		{kind: kFinalize, reader: rdGeneric},
 		{kind: kFinalize, reader: rdFail31},
+		{kind: kFinalize, reader: rdChunk31},
 		{kind: kRead, n: 0},
 		{kind: kRead, n: 32},
 		{kind: kRead, n: 167},
@@ -215,9 +216,9 @@ func rngSpace(name string, thorough bool) *space {
 			rekeys = append(rekeys, add(op{kind: kRekey, label: l, n: n}))
 		}
 	}
-	rds := []int{rdZero, rdGeneric, rdByte, rdFail31}
+	rds := []int{rdZero, rdGeneric, rdByte, rdChunk31, rdFail31}
 	if thorough {
-		rds = []int{rdZero, rdFF, rdGeneric, rdByte, rdFail31, rdEmpty}
+		rds = []int{rdZero, rdFF, rdGeneric, rdByte, rdChunk7, rdChunk16, rdChunk31, rdFail31, rdEmpty}
 	}
 	for _, r := range rds {
 		fins = append(fins, add(op{kind: kFinalize, reader: r}))
